@@ -56,7 +56,8 @@ Models(fc) ==
     [] fc = "memory" -> [memKind : {"mem32", "mem64"}, regions : 0..3, placement : Placements, pad : {0, 4}]
     [] fc = "directory" -> [dir : SeqsUpTo(DirEntries, MaxDir)]
     [] fc = "names" -> [site : {"module", "thread", "unloaded", "csd", "bootargs", "handle_type"}, kind : NameKinds]
-    [] fc = "misc" -> [layout : 1..5, pad : {0, 4}]
+    \* opt: which of the three optional MISC_INFO_3 fields are flagged as present (each accessor looks at its own flag)
+    [] fc = "misc" -> {[layout |-> l, pad |-> p, opt |-> o] : l \in 1..5, p \in {0, 4}, o \in SUBSET {"integrity", "execute", "protected"}}
     \* Crashpad annotation objects of each type; a string value is length-prefixed, so whether a 0 byte follows it is immaterial
     [] fc = "crashpad" -> [objs : SeqsUpTo(AnnKinds, 2), simple : 0..2, list : 0..2, mods : 1..2]
     [] fc = "sysinfo" -> [cpu : {"x86", "amd64", "arm64"}, vendor : {"GenuineIntel", "AuthenticAMD"}, rev : {"r0", "r1"}]
@@ -82,8 +83,8 @@ ModuleExpect == IF facet # "modules" THEN <<>> ELSE
                               debug_file |-> DebugFileRule(m.mods[k].cv), version |-> VersionRule(m.mods[k].os, m.mods[k].sigOk)]]
 \* by_addr order of the modules: ascending base address, whatever the file order
 ByAddr == IF facet # "modules" THEN <<>> ELSE IF Len(m.mods) = 2 /\ m.order = "desc" THEN <<2, 1>> ELSE [k \in 1..Len(m.mods) |-> k]
-MiscFields(layout) == CASE layout = 1 -> {"pid", "times"} [] layout = 2 -> {"pid", "times", "power"} [] layout = 3 -> {"pid", "times", "power", "integrity", "timezone"}
-                        [] layout = 4 -> {"pid", "times", "power", "integrity", "timezone", "build"} [] layout = 5 -> {"pid", "times", "power", "integrity", "timezone", "build", "xstate"}
+MiscFields(layout) == CASE layout = 1 -> {"pid", "times"} [] layout = 2 -> {"pid", "times", "power"} [] layout = 3 -> {"pid", "times", "power", "timezone"}
+                        [] layout = 4 -> {"pid", "times", "power", "timezone", "build"} [] layout = 5 -> {"pid", "times", "power", "timezone", "build", "xstate"}
 AnnExpect == IF facet # "crashpad" THEN <<>> ELSE
    [k \in 1..Len(m.objs) |-> CASE m.objs[k] \in {"str", "str_unterminated"} -> "string" [] m.objs[k] = "invalid" -> "invalid" [] m.objs[k] = "user" -> "user_defined" [] OTHER -> "unsupported"]
 \* the CPU description: 32-bit x86 shows the CPUID vendor string (the same string in either byte order), x86 and x86-64 show family / model / stepping
@@ -91,5 +92,5 @@ CpuInfoRule == IF facet # "sysinfo" THEN "none" ELSE CASE m.cpu = "x86" -> "vend
 TypeOK == phase \in {"walk", "done"} /\ i \in 1..(MaxDir + 1)
 Emit == phase = "done" => PrintT(<<"CASE", ToJson([facet |-> facet, endian |-> endian, m |-> m, served |-> served,
                                                     threads |-> ThreadExpect, modules |-> ModuleExpect, byAddr |-> ByAddr,
-                                                    misc |-> IF facet = "misc" THEN MiscFields(m.layout) ELSE {}, ann |-> AnnExpect, cpuinfo |-> CpuInfoRule])>>)
+                                                    misc |-> IF facet = "misc" THEN MiscFields(m.layout) \cup (IF m.layout >= 3 THEN m.opt ELSE {}) ELSE {}, ann |-> AnnExpect, cpuinfo |-> CpuInfoRule])>>)
 ====
